@@ -195,7 +195,8 @@ Example roundtrip_instance :
   end.
 Proof. vm_compute. repeat split; reflexivity. Qed.
 
-(* a variable added at run time is exported but is not a variable of the rebuilt model *)
+(* the NAMES guard of the round trip is necessary: a variable added at run time is exported but is not a variable of the
+   model rebuilt by a class that does not list it (documented behaviour of from_dataframe) *)
 Definition extra_model : fmodel :=
   mkModel ex_span ["X"; "I"] [("X", ex_X); ("I", ex_I)]
           (mkSeries NStr [CStr "-"; CStr "-"; CStr "-"]) (mkSeries NInt [CInt (-1); CInt (-1); CInt (-1)]).
@@ -210,7 +211,7 @@ Proof.
   split; [vm_compute; reflexivity|]. reflexivity.
 Qed.
 
-(* an integer variable rebuilt with the class default dtype float: rounded beyond 2^53 *)
+(* the dtype guard is necessary: an integer variable rebuilt with the class default dtype float: rounded beyond 2^53 *)
 Definition int_model : fmodel :=
   mkModel ex_span ["I"] [("I", ex_I)]
           (mkSeries NStr [CStr "-"; CStr "-"; CStr "-"]) (mkSeries NInt [CInt (-1); CInt (-1); CInt (-1)]).
@@ -223,7 +224,7 @@ Proof.
   split; [reflexivity|]. split; [vm_compute; reflexivity|]. split; [vm_compute; reflexivity|]. split; reflexivity.
 Qed.
 
-(* a text variable rebuilt with the class default dtype float: ValueError *)
+(* the dtype guard is necessary: a text variable rebuilt with the class default dtype float: ValueError *)
 Definition str_model : fmodel :=
   mkModel ex_span ["S"] [("S", ex_S)]
           (mkSeries NStr [CStr "-"; CStr "-"; CStr "-"]) (mkSeries NInt [CInt (-1); CInt (-1); CInt (-1)]).
